@@ -22,12 +22,12 @@ const (
 )
 
 type part struct {
-	Tok    string // unique token inside the part's text ("" for dangling)
-	Name   string // ZIP member name
-	Ref    string // Target / href exactly as written in the package (unescaped XML)
-	ID     string // relationship id / manifest id
-	Title  string // sheet name / chapter title
-	State  int
+	Tok        string // unique token inside the part's text ("" for dangling)
+	Name       string // ZIP member name
+	Ref        string // Target / href exactly as written in the package (unescaped XML)
+	ID         string // relationship id / manifest id
+	Title      string // sheet name / chapter title
+	State      int
 	InManifest bool // decoys: listed in the manifest (EPUB) / rels (OOXML) but not declared
 
 	SheetID int // xlsx: the sheetId attribute (an identifier, unrelated to the position)
@@ -43,9 +43,9 @@ type part struct {
 // mdoc is the harness's record of what it wrote into one member; it becomes
 // the parse table of the op line (the XML/ZIP libraries are parameters of the model).
 type mdoc struct {
-	name string
-	data []byte
-	spec string // doc spec for the op line, "" = opaque
+	name  string
+	data  []byte
+	spec  string // doc spec for the op line, "" = opaque
 	store bool
 }
 
@@ -60,6 +60,9 @@ type pkg struct {
 	Base     string // EPUB: directory of the package file
 	Notes    []string
 	Twins    []twin // near-name members (twins.go)
+
+	slideRels map[string][][3]string // pptx: slide member name -> entries of its relationship part
+	Blank     string                 // epub: member name of a blank page in the spine ("" = none)
 }
 
 func (p *pkg) add(name string, data string, spec string) {
@@ -117,6 +120,109 @@ func (p *pkg) opLine() string {
 		}
 	}
 	return "c18.pkg " + p.Fmt + " a=" + strings.Join(a, ",") + " x=" + strings.Join(x, ";")
+}
+
+// admissionVariant (own stream, one package in sixteen) adds or rewrites members that the
+// front door's content sniffing looks at before any reader is opened: a member named
+// "mimetype" naming this, another or no known format, a META-INF/container.xml or the main
+// part of another OOXML format beside this package's own. Variants whose content names
+// another format are refused by tabula.Open (by design: property C20) although the format
+// reader itself reads them: no C18 verdict there, the model must agree on the refusal.
+func (p *pkg) admissionVariant(r *hx.Rng) {
+	if !r.Chance(1, 16) {
+		return
+	}
+	mime := func(data string) {
+		for i := range p.Docs {
+			if p.Docs[i].name == "mimetype" {
+				p.Docs[i].data = []byte(data)
+				return
+			}
+		}
+		p.Docs = append(p.Docs, mdoc{name: "mimetype", data: []byte(data), store: true})
+	}
+	refused := func(why string) {
+		p.Oracle = false
+		p.Notes = append(p.Notes, "admission-refused:"+why)
+	}
+	harmless := func(why string) { p.Notes = append(p.Notes, "admission-harmless:"+why) }
+	switch p.Fmt {
+	case "epub":
+		switch r.Intn(5) {
+		case 0:
+			mime("application/vnd.oasis.opendocument.text")
+			refused("odt-mimetype")
+		case 1:
+			mime("  application/epub+zip\r\n")
+			harmless("padded-mimetype")
+		case 2:
+			mime("application/epub+zip; version=3")
+			harmless("unknown-mimetype")
+		case 3:
+			if !p.has("word/document.xml") {
+				p.add("word/document.xml", "<w:document/>", "")
+			}
+			harmless("stray-word-part")
+		default:
+			mime("x-application/vnd.oasis.opendocument.text-template")
+			refused("odt-like-mimetype")
+		}
+	default:
+		switch r.Intn(7) {
+		case 0:
+			if !p.has("word/document.xml") {
+				p.add("word/document.xml", "<w:document/>", "")
+			}
+			refused("word-main-part")
+		case 1:
+			if !p.has("META-INF/container.xml") {
+				p.add("META-INF/container.xml", "<container/>", "")
+			}
+			refused("container")
+		case 2:
+			mime("application/epub+zip")
+			refused("epub-mimetype")
+		case 3:
+			mime("application/vnd.oasis.opendocument.text")
+			refused("odt-mimetype")
+		case 4:
+			mime("text/plain")
+			harmless("unknown-mimetype")
+		case 5:
+			other := "ppt/presentation.xml"
+			if p.Fmt == "pptx" {
+				other = "xl/workbook.xml"
+			}
+			if !p.has(other) {
+				p.add(other, "<x/>", "")
+			}
+			if p.Fmt == "pptx" {
+				refused("xlsx-main-part")
+			} else {
+				harmless("pptx-main-part")
+			}
+		default:
+			if !p.has("word/media/x.bin") {
+				p.add("word/media/x.bin", "bin", "")
+			}
+			harmless("word-directory")
+		}
+	}
+}
+
+// mimeTable renders, for the op line, the first bytes of every member named "mimetype".
+func (p *pkg) mimeTable() string {
+	var xs []string
+	for i, d := range p.Docs {
+		if d.name == "mimetype" {
+			b := d.data
+			if len(b) > 256 {
+				b = b[:256]
+			}
+			xs = append(xs, fmt.Sprintf("%d=%s", i+1, hx.Hex(b)))
+		}
+	}
+	return "m=" + strings.Join(xs, ";")
 }
 
 func pairSpec(tag string, pairs [][2]string) string {
